@@ -93,7 +93,7 @@ class Accum:
                 self.samples.append(s)
 
 
-def explore_family(modname, fam, params, seed, budget_s, procs, max_paths=None, funcs=None):
+def explore_family(modname, fam, params, seed, budget_s, procs, max_paths=None, funcs=None, validate=None):
     """Explore one family completely or until the time budget is used.
     Returns (Accum, completed: bool)."""
     mod = importlib.import_module(modname)
@@ -104,7 +104,7 @@ def explore_family(modname, fam, params, seed, budget_s, procs, max_paths=None, 
     eng.bfs = True
     eng.worklist = [[]]
     eng.xcheck_every = int(os.environ.get('VERIF_XCHECK_EVERY', '40'))
-    eng.real_models_wanted = 2
+    eng.real_models_wanted = validate if validate else 2
     prof = None
     if funcs is not None:
         def prof(frame, event, arg):
@@ -269,6 +269,7 @@ def run_check(prop, modname, tier, seed):
     all_viol = []
     real_validations = 0
     validation_failures = []
+    real_only = []
     all_samples = []
     weights = [f.get('weight', 1.0) for f in families]
     wsum = sum(weights)
@@ -283,7 +284,7 @@ def run_check(prop, modname, tier, seed):
         fam_budget = max(3.0, min(share * slack, left_total - 3.0 * (len(families) - i - 1)))
         ft = time.time()
         acc, completed = explore_family(modname, f['name'], f.get('params', {}), seed, fam_budget, procs,
-                                        funcs=funcs if i < 3 else None)
+                                        funcs=funcs if i < 3 else None, validate=f.get('validate'))
         dt = time.time() - ft
         spent += dt
         fam_report.append({'family': f['name'], 'params': f.get('params', {}), 'paths': acc.stats.paths,
@@ -295,6 +296,7 @@ def run_check(prop, modname, tier, seed):
         # ---- model validation: a few completed paths of this family are re-run on the real OS; every
         # obligation that held symbolically must hold there too (otherwise the environment model is wrong)
         nval = int(os.environ.get('VERIF_REAL_VALIDATIONS', '2' if tier == 'quick' else '6'))
+        nval = max(nval, f.get('validate', 0))       # families whose point is the real gzip/json/OS (e.g. odd file names)
         if not acc.violations:
             for rm in acc.real_models[:nval]:
                 rec = {'check': '(model validation)', 'sig': ['(model validation)'], 'info': None,
@@ -302,8 +304,12 @@ def run_check(prop, modname, tier, seed):
                 vpath = write_replay(prop, modname, f['name'], f.get('params', {}), rec, sub='validate')
                 status, failures = run_replay(vpath)
                 real_validations += 1
-                if status == 'error' or failures:
+                if status == 'error':
                     validation_failures.append((f['name'], vpath, status, failures))
+                elif failures:
+                    # an obligation fails for the real library on the real OS although it holds on the model: the
+                    # difference is below the model (gzip/json/OS level).  It is a reproduced counterexample all the same.
+                    real_only.append((f, vpath, failures))
                 else:
                     os.remove(vpath)
         for k, v in acc.violations.items():
@@ -338,6 +344,17 @@ def run_check(prop, modname, tier, seed):
                 unreproduced.append((k, path, failures))
         else:
             unreproduced.append((k, path, failures))
+    for f_, vpath, failures in real_only:
+        for fl in failures:
+            sig = tuple(str(x) for x in fl['sig'])
+            if sig in seen_sigs:
+                continue
+            seen_sigs.add(sig)
+            kn = match_known(known, prop, fl['sig'])
+            if kn is not None:
+                known_hits.append((kn, vpath, 1))
+            else:
+                reported.append((fl, vpath, 1))
     # keep only replay files of reported/known ones; others stay for debugging too
     missing = [wn for wn in getattr(mod, 'WITNESSES', {}).get(tier, []) if wn not in total.witnesses]
     wall = time.time() - t0
